@@ -58,10 +58,24 @@ pub fn worker() -> i32 {
         };
         let layout = v["layout"].as_str().unwrap_or("").to_string();
         let (c0, _) = rusage_self();
-        let typed = if layout == "parse:" { None } else { proof_from_value(&v["proof"]) };
+        let typed = if layout == "parse:" || layout == "transform:" { None } else { proof_from_value(&v["proof"]) };
         let verdict = match typed {
             // subject "pubin": public-input validation and the program/output hashes called directly (in a
             // full verification they are only reached by a proof that is otherwise valid)
+            _ if layout == "transform:" => {
+                // subject "transform": the parser's own proof structure (what the wasm binding deserialises)
+                // through the CLI conversion
+                match serde_json::from_value::<swiftness_proof_parser::stark_proof::StarkProof>(v["proof"].clone()) {
+                    Ok(p) => match crate::kit::panics::catch(move || {
+                        use swiftness::transform::TransformTo;
+                        let _q: swiftness_stark::types::StarkProof = p.transform_to();
+                    }) {
+                        Ok(()) => "ok".to_string(),
+                        Err(pn) => format!("panic:{}", pn.site()),
+                    },
+                    Err(_) => "untypable".to_string(),
+                }
+            }
             _ if layout == "parse:" => {
                 // subject "parse": the proof FILE (a JSON document) through the parser and the CLI's conversion
                 let text = serde_json::to_string(&v["proof"]).unwrap_or_default();
@@ -400,7 +414,8 @@ pub fn run(ctx: &Ctx) -> Report {
          (honest: ~0.1 s, ~20 MB), the worker neither dies nor has to be killed. Two further subjects run in the same workers: validate_public_input + \
          verify_public_input called directly on every native proof's public input (every numeric field at the extremes and at \
          2^27+3, 2^30+3), and the proof FILE through the parser and the CLI conversion (every number of the JSON document at \
-         {0, 1, 2^16, 2^22, 2^27, 2^32-1, 2^32, 2^40, 2^63, 2^64-1}). Non-trivial: every case other than the honest \
+         {0, 1, 2^16, 2^22, 2^27, 2^32-1, 2^32, 2^40, 2^63, 2^64-1}), and the parser's own proof structure in its serde form \
+         (what the wasm binding accepts) through the CLI conversion with every declared count at the same extremes. Non-trivial: every case other than the honest \
          one; distinct by (proof, field, value)",
     );
     rep.trust("getrusage / /proc CPU accounting; thresholds 50x above the honest cost so only work proportional to a field's VALUE trips them");
@@ -482,6 +497,31 @@ pub fn run(ctx: &Ctx) -> Report {
                 }
             }
             bs.push(Base { name: pf.name.clone(), layout: "parse:".into(), value: Value::Null });
+            // fourth subject: the parsed structure itself (serde form), its declared counts at extremes
+            if let Ok(parsed) = swiftness_proof_parser::parse(pf.text.clone()) {
+                if let Ok(pv) = serde_json::to_value(&parsed) {
+                    let bi = bs.len();
+                    cases.push(Case { base: bi, desc: "transform: unmodified structure".into(), class: "transform:honest".into(), value: pv.clone() });
+                    for l in jw::leaves(&pv) {
+                        // numbers that are object members (the digits of big integers sit in arrays)
+                        if !matches!(l.last(), Some(jw::Seg::Key(_))) || !jw::get(&pv, &l).map(|x| x.is_number()).unwrap_or(false) {
+                            continue;
+                        }
+                        let ps = jw::path_str(&l);
+                        if ps.contains("dynamic_params") {
+                            continue;
+                        }
+                        for m in [0u64, 1, 1 << 16, 1 << 26, u32::MAX as u64, 1 << 32, 1 << 40, 1 << 63, u64::MAX] {
+                            let mut v = pv.clone();
+                            jw::set(&mut v, &l, json!(m));
+                            if v != pv {
+                                cases.push(Case { base: bi, desc: format!("transform: {} = {}", ps, m), class: format!("transform:{}", jw::path_class(&l)), value: v });
+                            }
+                        }
+                    }
+                    bs.push(Base { name: pf.name.clone(), layout: "transform:".into(), value: Value::Null });
+                }
+            }
         }
     }
     let inputs: Vec<(String, Value)> = cases.iter().map(|c| (bs[c.base].layout.clone(), c.value.clone())).collect();
@@ -499,6 +539,9 @@ pub fn run(ctx: &Ctx) -> Report {
             Outcome::Done { verdict, cpu_ms, maxrss_kb } => {
                 max_cpu = max_cpu.max(*cpu_ms);
                 max_rss = max_rss.max(*maxrss_kb);
+                if c.class == "transform:honest" && verdict != "ok" {
+                    rep.machinery(&format!("C17: unmodified parsed structure of {} not converted in the worker: {}", b.name, verdict));
+                }
                 if c.class == "parse:honest" && verdict != "ok" {
                     rep.machinery(&format!("C17: unmodified file {} not parsed in the worker: {}", b.name, verdict));
                 }
